@@ -518,3 +518,38 @@ Theorem C17_round_exact_tie :
 Proof. exact C17_round_exact_tie_lemma. Qed.
 Print Assumptions C17_round_exact_tie.
 
+
+(* ---- cross-cutting audit: narrow integer result types (short, unsigned short, char) are promoted to int inside trunc_t ---- *)
+Theorem C17_promotion :
+  (forall (t : c17_ity) (z : Z), c17_inrange t z = true -> c17_expr t z = C17_Val z /\ c17_store t z = C17_Val z) /\
+  c17_expr (C17_Ity false 16) 65536 = C17_Val 65536%Z /\ c17_store (C17_Ity false 16) 65536 = C17_Val 0%Z /\
+  c17_store (C17_Ity true 16) 32768 = C17_Val (-32768)%Z /\
+  c17_expr (C17_Ity false 32) 4294967296 = C17_Val 0%Z /\
+  c17_trunc_v2 53 1024 c17_Hprec64 c17_Hmax64 C17_Upward (C17_Ity false 16) C17_RelStrong
+    (c17_ex_f64' 0x3ff0000000000000) (c17_ex_f64' 0x40effffffffffffe) = C17_Val 1%Z /\
+  c17_trunc_fix 53 1024 c17_Hprec64 c17_Hmax64 C17_Upward (C17_Ity false 16) C17_RelStrong
+    (c17_ex_f64' 0x3ff0000000000000) (c17_ex_f64' 0x40effffffffffffe) = C17_Val 65535%Z.
+Proof. exact C17_promotion_lemma. Qed.
+Print Assumptions C17_promotion.
+
+(* ---- F-C17-4 / fixes/C17-4.patch: trunc at the top of the integer range, every format / style: floor(val) = max(I), val > 0 not integral
+        (and, for unsigned I, val not tolerantly 0): the result is max(I) -- no overflow, no wrap, whatever the tolerance ---- *)
+Theorem C17_trunc_top :
+  forall (prec emax : Z) (Hp : Prec_gt_0 prec) (Hm : Prec_lt_emax prec emax)
+         (t : c17_ity) (s : c17_cstyle) (eps val : binary_float prec emax),
+  is_finite val = true -> IZR (Zfloor (B2R val)) <> B2R val -> Zfloor (B2R val) = c17_imax t ->
+  c17_inrange t (Zfloor (B2R val)) = true -> (0 < B2R val)%R ->
+  negb (c17_signed t) && c17_eq prec emax Hp Hm s eps val (c17_fzero prec emax) = false ->
+  c17_trunc_down_fix prec emax Hp Hm t s eps val = C17_Val (Zfloor (B2R val)).
+Proof. exact C17_trunc_down_top_lemma. Qed.
+Print Assumptions C17_trunc_top.
+
+Example C17_trunc_top_witnesses :
+  let eps := c17_ex_f64' 0x3f1a36e2eb1c432d in
+  c17_trunc_v2 53 1024 c17_Hprec64 c17_Hmax64 C17_Downward (C17_Ity true 16) C17_RelWeak eps (c17_ex_f64' 0x40dffffffe5c91d1) = C17_Val (-32768)%Z /\
+  c17_trunc_fix 53 1024 c17_Hprec64 c17_Hmax64 C17_Downward (C17_Ity true 16) C17_RelWeak eps (c17_ex_f64' 0x40dffffffe5c91d1) = C17_Val 32767%Z /\
+  c17_trunc_v2 53 1024 c17_Hprec64 c17_Hmax64 C17_Downward (C17_Ity false 16) C17_RelWeak eps (c17_ex_f64' 0x40efffffff2e48e9) = C17_Val 0%Z /\
+  c17_trunc_fix 53 1024 c17_Hprec64 c17_Hmax64 C17_Downward (C17_Ity false 16) C17_RelWeak eps (c17_ex_f64' 0x40efffffff2e48e9) = C17_Val 65535%Z /\
+  c17_trunc_v2 53 1024 c17_Hprec64 c17_Hmax64 C17_Downward (C17_Ity true 32) C17_RelWeak eps (c17_ex_f64' 0x41dfffffffe00000) = C17_UB /\
+  c17_trunc_fix 53 1024 c17_Hprec64 c17_Hmax64 C17_Downward (C17_Ity true 32) C17_RelWeak eps (c17_ex_f64' 0x41dfffffffe00000) = C17_Val 2147483647%Z.
+Proof. exact C17_trunc_top_witnesses_lemma. Qed.
